@@ -1376,14 +1376,16 @@ class TypedBytesFixed(TypedBytesBase):
 
 class TypedBytesTerminated(TypedBytesBase):
     def __init__(self, spec, terminators: Sequence[bytes], empty_is_none=False,
-                 check_trailing_bytes=True, lazy=False):
+                 check_trailing_bytes=True, lazy=False, skip_none=True):
         self._bytes_tmpl = BytesTerminated(terminators)
         self._empty_is_none = empty_is_none
+        self._skip_none = skip_none
         super().__init__(spec, empty_is_none, check_trailing_bytes, lazy=lazy)
 
     def serialize(self, val, writer: BufferWriter, ctx):
-        # Don't write a terminator at all if we got `None`
-        if val is None and self._empty_is_none:
+        # Don't write a terminator at all if we got `None`, unless the terminator
+        # is what delimits the (empty) value inside a larger structure
+        if val is None and self._empty_is_none and self._skip_none:
             return
         super().serialize(val, writer, ctx)
 
